@@ -103,37 +103,43 @@ def FS.evalSymlinks (fs : FS) (p : Comps) : Option Comps := fs.resolve linkFuel 
 /-- os.Stat: does the path exist (following links)? -/
 def FS.exists (fs : FS) (p : Comps) : Bool := (fs.evalSymlinks p).isSome
 
-/-- os.Root walk: open `rel` beneath `root`. Errors are reported as `missingFile`-class `other`. -/
-def FS.rootWalk (fs : FS) (root : Comps) (fuel : Nat) (cur : Comps) (todo : List String) : R Comps :=
+/-- os.Root follows at most this many symbolic links in one operation (`rootMaxSymlinks`,
+    `__POSIX_SYMLOOP_MAX`); one more is `ELOOP`. -/
+def rootMaxSymlinks : Nat := 8
+
+/-- os.Root walk: open `rel` beneath `root`. Errors are reported as `missingFile`-class `other`.
+    `links` counts the symbolic links followed so far. -/
+def FS.rootWalk (fs : FS) (root : Comps) (fuel : Nat) (links : Nat) (cur : Comps) (todo : List String) : R Comps :=
   match fuel with
   | 0 => throw Err.other
   | fuel + 1 =>
     match todo with
     | [] => pure cur
     | c :: rest =>
-      if c == "." || c == "" then fs.rootWalk root fuel cur rest
+      if c == "." || c == "" then fs.rootWalk root fuel links cur rest
       else if c == ".." then
         if cur.length ≤ root.length then throw Err.other     -- escapes the root
-        else fs.rootWalk root fuel cur.dropLast rest
+        else fs.rootWalk root fuel links cur.dropLast rest
       else
         let next := cur ++ [c]
         match fs.lstat next with
         | none => throw Err.other
         | some (.link t) =>
           if isAbsPath t then throw Err.other                -- absolute links are refused
-          else fs.rootWalk root fuel cur (splitPath t ++ rest)
-        | some _ => fs.rootWalk root fuel next rest
+          else if links ≥ rootMaxSymlinks then throw Err.other   -- ELOOP
+          else fs.rootWalk root fuel (links + 1) cur (splitPath t ++ rest)
+        | some _ => fs.rootWalk root fuel links next rest
 
 /-- `p.root.Open(rel)` + ReadAll + UnmarshalStream: the documents of a file inside the root -/
 def FS.rootOpen (fs : FS) (root : Comps) (rel : List String) : R (List Val) := do
-  let real ← fs.rootWalk root linkFuel root rel
+  let real ← fs.rootWalk root linkFuel 0 root rel
   match fs.lstat real with
   | some (.file docs) => docs
   | _ => throw Err.other
 
 /-- `p.root.OpenRoot(rel)`: a directory inside the root -/
 def FS.rootOpenDir (fs : FS) (root : Comps) (rel : List String) : R Comps := do
-  let real ← fs.rootWalk root linkFuel root rel
+  let real ← fs.rootWalk root linkFuel 0 root rel
   match fs.lstat real with
   | some .dir => pure real
   | _ => throw Err.other
@@ -152,29 +158,30 @@ inductive Probe where
   deriving Inhabited, DecidableEq
 
 /-- the os.Root walk again, keeping "does not exist" apart from "refused" -/
-def FS.rootProbe (fs : FS) (root : Comps) (fuel : Nat) (cur : Comps) (todo : List String) : Probe :=
+def FS.rootProbe (fs : FS) (root : Comps) (fuel : Nat) (links : Nat) (cur : Comps) (todo : List String) : Probe :=
   match fuel with
   | 0 => .refused
   | fuel + 1 =>
     match todo with
     | [] => .found cur
     | c :: rest =>
-      if c == "." || c == "" then fs.rootProbe root fuel cur rest
+      if c == "." || c == "" then fs.rootProbe root fuel links cur rest
       else if c == ".." then
         if cur.length ≤ root.length then .refused
-        else fs.rootProbe root fuel cur.dropLast rest
+        else fs.rootProbe root fuel links cur.dropLast rest
       else
         let next := cur ++ [c]
         match fs.lstat next with
         | none => .missing
         | some (.link t) =>
           if isAbsPath t then .refused
-          else fs.rootProbe root fuel cur (splitPath t ++ rest)
-        | some _ => fs.rootProbe root fuel next rest
+          else if links ≥ rootMaxSymlinks then .refused
+          else fs.rootProbe root fuel (links + 1) cur (splitPath t ++ rest)
+        | some _ => fs.rootProbe root fuel links next rest
 
 /-- parser.go:stat — `errors.Is(err, os.ErrNotExist)` is the only answer findFile skips -/
 def FS.rootExists (fs : FS) (root : Comps) (rel : List String) : Bool :=
-  match fs.rootProbe root linkFuel root rel with
+  match fs.rootProbe root linkFuel 0 root rel with
   | .missing => false
   | _ => true
 
@@ -195,7 +202,7 @@ def hasMeta (s : String) : Bool := s.toList.any fun c => c == '*' || c == '?' ||
 /-- `fs.ReadDir(root.FS(), rel)`: the names in a directory inside the root, sorted; nothing when
     the walk is refused or does not end at a directory (fs.Glob ignores I/O errors) -/
 def FS.rootReadDir (fs : FS) (root : Comps) (rel : List String) : List String :=
-  match fs.rootWalk root linkFuel root rel with
+  match fs.rootWalk root linkFuel 0 root rel with
   | .error _ => []
   | .ok real =>
     match fs.lstat real with
